@@ -398,7 +398,8 @@ class Dependent:
         bound, dt = item
         if not isinstance(dt, DependentType):
             dt = dependent_check(dt)
-        return dt.with_bound(bound)
+        # The bound is an annotation like any other (int | str, Any, ...)
+        return dt.with_bound(normalize_type(bound, None))
 
 
 if TYPE_CHECKING:  # pragma: no cover
